@@ -372,14 +372,12 @@ theorem mulInto_of_squareInto {env : Env} {dst a m : Ct} (h : squareInto env dst
   rw [if_neg (by omega)]
   rw [hm]
 
-/-- `ckks_square_into` runs the data path of `ckks_mul_into(dst, a, a)` (C05 `tensorSquare_eq_tensorApply`, rank 1) -/
-theorem dSquareInto_eq_mul {env : Env} {N : Nat} {mk : MulKey} {dst a : DCt} {H : Int} {b r : Nat} (ha : GB N b 1 H a.g) {m : Ct}
+/-- `ckks_square_into` runs the data path of `ckks_mul_into(dst, a, a)` (C05 `tensorSquare_eq_tensorApply`, every rank) -/
+theorem dSquareInto_eq_mul {env : Env} (hb1 : 1 ≤ env.base2k) {N : Nat} {mk : MulKey} {dst a : DCt} {m : Ct}
     (h : squareInto env dst.ct a.ct = .ok m) : dSquareInto env N mk dst a = dMulInto env N mk dst a a := by
-  obtain ⟨c0, c1, hc⟩ := cols2 ha
   obtain ⟨q, hq, _, _⟩ := squareInto_params h
   simp only [dSquareInto, dMulInto, withMeta_ok _ _ _ h, withMeta_ok _ _ _ (mulInto_of_squareInto h), hq, mulCols, Nat.max_self]
-  rw [C05.tensorSquare_eq_tensorApply mk.big N env.base2k a.g.size q.cnv env.base2k (effCols env.base2k a.md.effK a.g) a.md.effK _
-    (Or.inl (by simp [effCols, hc])) (by simp [effCols, zeroC, tensorCols, hc])]
+  rw [C05.tensorSquare_eq_tensorApply mk.big N env.base2k a.g.size q.cnv env.base2k (effCols env.base2k a.md.effK a.g) a.md.effK _ hb1 hb1]
 
 /-- **`ckks_square_into` (rank 1), the product contract discharged** -/
 theorem squareAdm_discharged {env : Env} (he : EnvOK env) {N : Nat} (hN : 0 < N) {mk : MulKey} {dst a : DCt} {Hd : Int}
@@ -396,7 +394,7 @@ theorem squareAdm_discharged {env : Env} (he : EnvOK env) {N : Nat} (hN : 0 < N)
     MulAdm env N 1 s (mulCtU N env.base2k (divCeil a.md.effK env.base2k) (max a.g.size a.g.size) dst.g.size (s.getD 0 [])
         (relinU env.base2k dst.g.size mk.tsk.size s Gmax Dmax) : Int)
       dst a a (dSquareInto env N mk dst a) q := by
-  rw [dSquareInto_eq_mul (r := 1) ha hm]
+  rw [dSquareInto_eq_mul he.lo hm]
   exact mulAdm_discharged he hN hd ha ha (mulInto_of_squareInto hm) hq hhi hroom hs hadm
 
 /-- the contract is monotone in its error constant (so one constant `Uc` serves every product of a program) -/
